@@ -31,3 +31,44 @@ package syncx
 //@ func (sl *SpinLock) Unlock
 //@   trusted
 //@   modifies nothing
+
+// ---------------------------------------------------------------------------------------------
+// C05 permits: Limit is a buffered channel used as a counting semaphore (channel = bounded counter, trusted axiom:
+// a buffered channel of capacity n never holds more than n items; a non-blocking send succeeds iff there is room,
+// a non-blocking receive iff an item is queued).
+// ---------------------------------------------------------------------------------------------
+//@ spec limLen(l Limit) int = chanLen(l.pool)
+//@ spec limCap(l Limit) int = chanCap(l.pool)
+//@ spec limOK(l Limit) bool = chanCap(l.pool) >= 1 && 0 <= chanLen(l.pool) && chanLen(l.pool) <= chanCap(l.pool)
+//@ func (l Limit) TryBorrow
+//@   property C05
+//@   requires chanCap(l.pool) >= 1 && 0 <= chanLen(l.pool) && chanLen(l.pool) <= chanCap(l.pool)
+//@   ensures  result == (old(chanLen(l.pool)) < chanCap(l.pool))
+//@   ensures  chanLen(l.pool) == old(chanLen(l.pool)) + ite(result, 1, 0) && chanLen(l.pool) <= chanCap(l.pool)
+//@ func (l Limit) Return
+//@   property C05
+//@   requires chanCap(l.pool) >= 1 && 0 <= chanLen(l.pool) && chanLen(l.pool) <= chanCap(l.pool)
+//@   ensures  iff(result == nil, old(chanLen(l.pool)) > 0) && implies(result != nil, result == ErrLimitReturn)
+//@   ensures  chanLen(l.pool) == old(chanLen(l.pool)) - ite(result == nil, 1, 0) && chanLen(l.pool) >= 0
+//@ func (l Limit) Borrow
+//@   property C05
+//@   requires chanCap(l.pool) >= 1 && 0 <= chanLen(l.pool) && chanLen(l.pool) <= chanCap(l.pool)
+//@   ensures  chanLen(l.pool) == old(chanLen(l.pool)) + 1 && chanLen(l.pool) <= chanCap(l.pool)
+//@ func NewLimit
+//@   property C05
+//@   requires n >= 1
+//@   ensures  chanCap(result.pool) == n && chanLen(result.pool) == 0
+//@   allocates
+//@ func (l TimeoutLimit) TryBorrow
+//@   property C05
+//@   requires chanCap(l.limit.pool) >= 1 && 0 <= chanLen(l.limit.pool) && chanLen(l.limit.pool) <= chanCap(l.limit.pool)
+//@   ensures  result == (old(chanLen(l.limit.pool)) < chanCap(l.limit.pool))
+//@   ensures  chanLen(l.limit.pool) == old(chanLen(l.limit.pool)) + ite(result, 1, 0)
+//@ func (l TimeoutLimit) Return
+//@   property C05
+//@   requires chanCap(l.limit.pool) >= 1 && 0 <= chanLen(l.limit.pool) && chanLen(l.limit.pool) <= chanCap(l.limit.pool)
+//@   ensures  iff(result == nil, old(chanLen(l.limit.pool)) > 0) && implies(result != nil, result == ErrLimitReturn)
+//@   ensures  chanLen(l.limit.pool) == old(chanLen(l.limit.pool)) - ite(result == nil, 1, 0)
+//@ func (cond *Cond) Signal
+//@   trusted
+//@   modifies nothing
